@@ -59,7 +59,7 @@ def run(ctx):
     uqn = [t.id for t, v, st in stores(plot.node) if isinstance(t, ast.Name) and isinstance(v, ast.Call) and (chain(v.func) or '').endswith('unique') and up(v.args[0]) == apn]
     uqn = uqn[0] if uqn else 'unique_ap'
     ra = [up(a).replace(' ', '') for a in lp.iter.args]
-    ctx.expect(ra == ['info.n_fits-1', '-1', '-1'], 'CFG-13', 'fit loop runs from the worst selected fit to the best', where(plot, lp), 'range(n_fits - 1, -1, -1): the best fit is appended last',
+    ctx.expect(ra == ['%s.n_fits-1' % rec, '-1', '-1'], 'CFG-13', 'fit loop runs from the worst selected fit to the best', where(plot, lp), 'range(n_fits - 1, -1, -1): the best fit is appended last',
                'loop is range(%s)' % ', '.join(ra), 'loop-order')
     per_fit = ('model_name', 'sc', 'av', 'chi2', 'model_fluxes')
     bad, n = [], 0
@@ -180,7 +180,8 @@ def run(ctx):
     # colour type per (mode, best?) and what is appended per flux rank
     ct_if = None
     for n_ in walk_local(lp):
-        if isinstance(n_, ast.If) and any(isinstance(t, ast.Name) and t.id == 'color_type' for s_ in n_.body + n_.orelse for t, v, s3 in stores(s_)):
+        if isinstance(n_, ast.If) and any(isinstance(t, ast.Name) and const(v) in ('black', 'gray', 'full', 'faded') for s_ in n_.body + n_.orelse for t, v, s3 in stores(s_)):
+            ct_name = [t.id for s_ in n_.body + n_.orelse for t, v, s3 in stores(s_) if isinstance(t, ast.Name) and const(v) in ('black', 'gray', 'full', 'faded')][0]
             ct_if = n_
             break
     rank_if = None
@@ -189,6 +190,9 @@ def run(ctx):
             rank_if = n_
     if ct_if is None or rank_if is None:
         raise AnalysisError('plot(): colour selection not found')
+    appends = [c for c in calls(rank_if) if isinstance(c.func, ast.Attribute) and c.func.attr == 'append' and isinstance(c.func.value, ast.Name)]
+    colors_name = ([c.func.value.id for c in appends if 'color' in up(c.args[0])] or ['colors'])[0]
+    lines_name = ([c.func.value.id for c in appends if 'column_stack' in up(c.args[0])] or ['lines'])[0]
     for mode in MODES:
         for best in (True, False):
             inst = 'display mode %r, %s fit: colour entry matches the flux rank' % (mode, 'best' if best else 'other')
@@ -197,7 +201,7 @@ def run(ctx):
             info.attrs['n_fits'] = 3
             env = {'__module__': pm, 'plot_mode': 'A', 'sed_type': mode, i: 0 if best else 1, rec: info}
             I.stmt(ct_if, env, pm)
-            ct = env.get('color_type')
+            ct = env.get(ct_name)
             rank = ranks.get(mode)
             if not isinstance(ct, str) or rank is None:
                 ctx.undecided('FLAG', inst, where(plot, ct_if), 'colour type %r, rank %r' % (ct, rank))
@@ -205,25 +209,27 @@ def run(ctx):
             kind = kinds.get(ct)
             # which append executes for this rank, and does it index the colour entry?
             body = rank_if.body if rank > 1 else rank_if.orelse
-            env2 = {'__module__': pm, 'color_type': ct, 'colors': [], 'lines': [], 'color': {k: ('RGB',) if v == 'rgb' else GenList(None, ('RGB',)) for k, v in kinds.items()},
+            env2 = {'__module__': pm, ct_name: ct, colors_name: [], lines_name: [], 'color': {k: ('RGB',) if v == 'rgb' else GenList(None, ('RGB',)) for k, v in kinds.items()},
                     's': Obj(None, {'wav': symarr('wav', (N,))})}
             for fn_ in (flux_names or {'flux'}):
                 env2[fn_] = symarr('fl', (N, 'd') if rank > 1 else (N,))
             I2 = Interp(repo)
             I2.block(body, env2, pm)
-            cols = env2.get('colors')
+            cols = env2.get(colors_name)
             good = isinstance(cols, list) and len(cols) >= 1 and all(c == ('RGB',) for c in cols)
             ctx.expect(good, 'FLAG', inst, where(plot, rank_if), 'colour type %r (%s) with a %d-D flux appends one RGB per curve' % (ct, kind, rank),
                        'colour type %r is a %s but the %d-D branch appends %r (a single RGB indexed per aperture, or a list used as one colour)' % (ct, kind, rank, cols), 'colour-kind')
     ctx.exhaustive = True
     # ---- returned line collection
     lc = [c for c in calls(plot.node) if (chain(c.func) or '') == 'LineCollection']
-    fig_store = [st for t, v, st in stores(plot.node) if up(t).startswith('figures[') and 'LineCollection(lines' in up(v)]
-    rets = [n_ for n_ in walk_local(plot.node) if isinstance(n_, ast.Return) and up(n_.value) == 'figures']
-    ctx.expect(bool(fig_store) and bool(rets) and all(up(c.args[0]) == 'lines' for c in lc), 'CFG-13', 'the lines drawn are what is returned', where(plot, fig_store[0] if fig_store else None),
+    fig_store = [(t, st) for t, v, st in stores(plot.node) if isinstance(t, ast.Subscript) and ('LineCollection(%s' % lines_name) in up(v)]
+    fig_name = up(fig_store[0][0].value) if fig_store else 'figures'
+    fig_store = [st for t, st in fig_store]
+    rets = [n_ for n_ in walk_local(plot.node) if isinstance(n_, ast.Return) and up(n_.value) == fig_name]
+    ctx.expect(bool(fig_store) and bool(rets) and all(up(c.args[0]) == lines_name for c in lc), 'CFG-13', 'the lines drawn are what is returned', where(plot, fig_store[0] if fig_store else None),
                "figures[name]['lines'] = LineCollection(lines, colors=colors); return figures", 'the returned figures do not carry the LineCollection of the plotted lines', 'returned-lines')
-    app = [c for c in calls(lp) if up(c.func) == 'lines.append']
-    ctx.expect(len(app) >= 2 and all('s.wav' in up(c) and 'flux' in up(c) for c in app), 'CFG-13', 'each curve is (wavelength, interpolated flux) of the scaled SED', where(plot, app[0] if app else lp),
+    app = [c for c in calls(lp) if up(c.func) == '%s.append' % lines_name]
+    ctx.expect(len(app) >= 2 and all('.wav' in up(c) and any(f_ in up(c) for f_ in (flux_names or {'flux'})) for c in app), 'CFG-13', 'each curve is (wavelength, interpolated flux) of the scaled SED', where(plot, app[0] if app else lp),
                '%d append sites: column_stack([s.wav, flux...])' % len(app), 'lines appended: %s' % [up(c)[:70] for c in app], 'line-content')
     common.check_ownership(ctx, only=('plot',))
 
